@@ -87,4 +87,15 @@ returned before the snapshot).  Only history facts that do not depend on the ord
 def holdsPar (n m : Nat) (ops : List Op) (o : Obs) : Bool :=
   holdsWith n m (fun _ => false) (goneSyn n ops) (fun _ => false) o
 
+/-- Every history made of complete handshakes (`hsAuth`/`hsChal` always immediately followed by
+`hsFin` on the same connection — what a sequential caller can produce) is quiescent. -/
+def completeOps : List Op → Bool
+  | [] => true
+  | .hsAuth c _ _ :: .hsFin c' :: rest => c == c' && completeOps rest
+  | .hsChal c _ :: .hsFin c' :: rest => c == c' && completeOps rest
+  | .hsAuth _ _ _ :: _ => false
+  | .hsChal _ _ :: _ => false
+  | _ :: rest => completeOps rest
+
+
 end Tunnox.C07
